@@ -8,7 +8,7 @@ from .common import hx, unhx
 
 ID = 'C17'
 GEN_DEPS = []
-RULE = ('every public way to answer with an event stream (DataStream::new over String and over &str, DataStream::from(stream), Response::with_stream(stream)) x producer schedules (0-12 messages over 1-8 polls: bursts before a yield, Pending polls without pushes, completion with a non-empty queue) x messages from a pool of awkward texts '
+RULE = ('bursts of up to 1000 messages in one poll (4 % of the cases); every public way to answer with an event stream (DataStream::new over String and over &str, DataStream::from(stream), Response::with_stream(stream)) x producer schedules (0-12 messages over 1-8 polls: bursts before a yield, Pending polls without pushes, completion with a non-empty queue) x messages from a pool of awkward texts '
         '(empty, leading space, LF/CRLF/CR inside and at the end, blank lines, data:/id:/event:/retry: look-alikes, comments, non-ASCII, long) ; non-trivial = at least 2 messages or a message '
         'with a line break or a field look-alike; distinct by canonical JSON')
 ASSUMPTIONS = ['one poll of the producer = one step of the schedule (the producer yields to the executor exactly once between steps)',
@@ -21,6 +21,8 @@ def sched_gen(rng):
     steps = []
     for _ in range(rng.choice([1, 1, 2, 3, 5, 8])):
         steps.append({'pushes': [hx(rng.choice(POOL)) for _ in range(rng.choice([0, 0, 1, 1, 2, 4]))], 'ready': False})
+    if rng.random() < 0.04:          # a long burst before a yield or before completion (hundreds of messages in one poll)
+        steps[rng.randrange(len(steps))]['pushes'] = [hx(rng.choice(['x', '', 'tick %d' % i, 'a\nb'])) for i in range(rng.choice([127, 128, 129, 300, 1000]))]
     steps[-1]['ready'] = True
     return steps
 
@@ -85,6 +87,7 @@ def norm(m): return m.replace('\r\n', '\n').replace('\r', '\n')
 
 def spec_check(case, out):
     if 'panic' in out: return 'panic: ' + out['panic'][:120]
+    if 'wire' not in out: return f'the response was never finished (the stream stalls): {str(out)[:80]}'
     wire = unhx(out['wire'])
     head, sep, body = wire.partition(b'\r\n\r\n')
     if not sep: return 'no header block'
